@@ -132,6 +132,10 @@ func c03Mutants(r *hx.Rng, k c03Key, valid string, claims map[string]any, others
 		{"std-alphabet-signature", h + "." + p + "." + strings.NewReplacer("-", "+", "_", "/").Replace(s)},
 		{"payload-reencoded-with-space", h + "." + b64(append([]byte(" "), payload...)) + "." + s},
 		{"swapped-header-payload", p + "." + h + "." + s},
+		// truncations down to nothing: a credential that is present is judged, however short
+		{"truncated-to-nothing", ""},
+		{"truncated-to-header", h},
+		{"truncated-mid-payload", h + "." + p[:len(p)/2]},
 	}
 	// HMAC keyed with what the attacker knows: the hub's public PEM (asymmetric roles), or a guess
 	for _, ha := range []string{"HS256", "HS512"} {
@@ -363,9 +367,6 @@ func runC03(a args) error {
 					}
 					status = st.W.Status
 					st.Close()
-				}
-				if len(m.tok) < 41 {
-					continue // shorter than the carrier's minimum length: refused before validation (C04)
 				}
 				// the independent verifier
 				segs := strings.Split(m.tok, ".")
